@@ -27,7 +27,7 @@ func TestC18(t *testing.T) {
 	mon.Main(t, mon.Check{
 		ID:    "C18",
 		Level: "exploration",
-		Rule:  "race-detector build of the real gbn code. Case kinds: (A) virtual-time scenarios with keepalive on (both peers the same ping interval, latency a multiple of it, static resend timeout equal to it, so ping, pong, resend expiries and packet arrivals share instants) while 2-3 senders, 1-2 receivers, a timeout setter and 0-2 closers per endpoint call the API concurrently; every Send/Recv call and return is stamped from one atomic logical clock and each direction's history (<=60 ops) is checked with porcupine against a FIFO queue model (failed/timed-out Sends stay open: they may or may not have taken effect); (B) real-time stress of IntervalAwareForceTicker in the two roles the connection's loops play; (C) real-time stress of TimeoutManager. Oracles: no race-detector report with a gbn frame, no worker death (panic), no stuck worker set (two goroutine censuses 5 s apart), porcupine Ok. Non-trivial = at least two API goroutines overlapped with internal activity; distinct = (kind, N, latency, closers, senders, receivers, faults).",
+		Rule:  "race-detector build of the real gbn code. Case kinds: (A) virtual-time scenarios with keepalive on (both peers the same ping interval, latency a multiple of it, static resend timeout equal to it, so ping, pong, resend expiries and packet arrivals share instants) while 2-3 senders, 1-2 receivers, a timeout setter and 0-2 closers per endpoint call the API concurrently; every Send/Recv call and return is stamped from one atomic logical clock and each direction's history (<=60 ops) is checked with porcupine against a FIFO queue model (failed/timed-out Sends stay open: they may or may not have taken effect); (B) real-time stress of IntervalAwareForceTicker in the two roles the connection's loops play; (C) real-time stress of TimeoutManager. Oracles: no race-detector report with a gbn frame, no worker death (panic), no stuck worker set (two goroutine censuses 5 s apart), porcupine Ok. (Q) direct real-time stress of the real queue with its syncer and timeout manager in the two roles of the connection's loops: send-loop role addPacket (while the window has room) / resend, receive-loop role processACK / processNACK with the values a peer sends and arbitrary ones; race detector plus the two-census deadlock rule. Non-trivial = at least two API goroutines overlapped with internal activity; distinct = (kind, N, latency, closers, senders, receivers, faults).",
 		Assumptions: []string{
 			"the race detector only sees accesses that the executed schedules performed",
 			"porcupine verdict Unknown (timeout) is reported as inconclusive",
